@@ -155,6 +155,19 @@ pub fn sx_tree<const K: usize>(t: &AffTree<K>) -> String {
 pub fn silence_panics() {
     std::panic::set_hook(Box::new(|_| {}));
 }
+/// runs the generation of one case; if the library panics outside the calls a case observes on purpose (that is, in a
+/// step that builds the operands -- which never happens on the pinned tree), the partial output of the case is
+/// dropped and a `crashed` case is emitted instead: the runner reports it as ERR (correspondence not checkable for
+/// this case) and the other cases are still checked
+#[allow(dead_code)]
+pub fn guard<F: FnOnce(&mut String)>(id: usize, out: &mut String, f: F) {
+    let mark = out.len();
+    let r = catch(std::panic::AssertUnwindSafe(|| f(out)));
+    if let Err(m) = r {
+        out.truncate(mark);
+        out.push_str(&format!("(case {} crashed \"{}\")\n", id, m.replace('\\', " ")));
+    }
+}
 pub fn catch<R, F: FnOnce() -> R + std::panic::UnwindSafe>(f: F) -> Result<R, String> {
     match std::panic::catch_unwind(f) {
         Ok(r) => Ok(r),
